@@ -14,6 +14,10 @@ from ..topo import REF, KIND_OF_CLASS
 from . import c10
 
 ID = 'C19'
+# sub-checks added after the seeded-change waves (DESIGN.md sections 5 and 6)
+EXTENSIONS = [
+    'every bmat grid pattern up to 3x4; every list-length combination of asm with w.idx; split identity on restricted / facet / side-1 bases; per-cell matrices and inverse of sums; blocks of complex forms',
+]
 LEVEL = 'exploration'
 TECHNIQUE = "small-scope exhaustive enumeration (meshes x wrapper elements x all unit vectors x all bipartitions) with algebraic consistency oracles"
 LEVEL_TEXT = ("For small meshes of every class (plain, renumbered, mirrored) and every vector / composite wrapper in the catalogue "
